@@ -40,3 +40,14 @@ Definition ctx_handshake (c : hctx) (h : hs) : res hctx :=
 
 Definition hs_dom (h : hs) : bool :=
   (hs_version h <? 16) && (hs_codec h <? 16) && (hs_platform h <? 16) && (hs_reserve h <? 16).
+
+(* the registry as an application may extend it through the exported Register *)
+Definition registry := list (N * N).        (* number it is registered under -> the implementation's own Version() *)
+Definition reg_register (r : registry) (k impl : N) : registry := (k, impl) :: r.     (* manager[k] = p: the newest entry wins *)
+Definition reg_lookup (r : registry) (k : N) : option N := option_map snd (find (fun e => fst e =? k) r).
+Definition get_protocol_in (r : registry) (v : N) : res N :=
+  match reg_lookup r v with Some impl => Ok impl | None => Err EInvalidVersion end.
+Definition ctx_handshake_in (r : registry) (c : hctx) (h : hs) : res hctx :=
+  _ <- get_protocol_in r (hs_version h) ;;
+  Ok {| cx_version := hs_version h; cx_codec := hs_codec h; cx_platform := hs_platform h; cx_handshaked := true |}.
+
